@@ -41,7 +41,7 @@ EVENTS = (
     "on_write", "on_write_end", "on_post_run",
     "on_send_event_time_begin", "on_send_event_time_end",
     "on_send_out_state_begin", "on_send_out_state_end",
-    "on_draw", "on_potential_call", "on_lifting_call", "on_walker_built", "on_walker_sample",
+    "on_draw", "on_potential_call", "on_lifting_call", "on_walker_built", "on_walker_sample", "on_handlers_restored", "on_handlers_restoring",
     "on_bounding_warning", "on_time_op",
 )
 
@@ -347,6 +347,20 @@ class RandomFacade(object):
         for h in HUB.h_on_draw:
             h("randint", (a, b), site, k, value)
         return value
+
+    def _other(self, name, *args, **kwargs):
+        """Any other function of the random module: served by the same stream, reported as one draw."""
+        self.count += 1
+        value = getattr(self.stream, name)(*args, **kwargs)
+        for h in HUB.h_on_draw:
+            h(name, args, None, None, value)
+        return value
+
+    def __getattr__(self, name):
+        if name.startswith("_") or not hasattr(_real_random.Random, name):
+            raise AttributeError(name)
+        import functools
+        return functools.partial(self._other, name)
 
     def choice(self, seq):
         if not len(seq):
@@ -655,3 +669,40 @@ def pickle_round_trip(role, keep_identity_of):
     object.__setattr__(proxy, "_target", fresh)
     LOADED[role] = fresh
     return fresh
+
+
+def restore_in_place(objects, keep_types=()):
+    """Fault: what a dump / resume does to the *contents* of the given objects (the event handlers): their instance
+    dictionaries go through one dill round trip (sharing between them is preserved, ``__getstate__`` / ``__setstate__``
+    of everything inside - potentials, in-state nodes, times, liftings, walkers - are exercised) and are put back into
+    the same objects, so that the rest of the running system still refers to them.  Objects of ``keep_types`` (the
+    cells the activator's internal state shares with the handlers) and the objects themselves are pickled by
+    reference."""
+    import io
+    import dill
+    kept = []
+    index = {}
+    top = set(id(o) for o in objects)
+
+    class Pickler(dill.Pickler):
+        def persistent_id(self, obj):
+            if id(obj) in top or (keep_types and isinstance(obj, keep_types)):
+                i = index.get(id(obj))
+                if i is None:
+                    i = index[id(obj)] = len(kept)
+                    kept.append(obj)
+                return ("kept", i)
+            return None
+
+    class Unpickler(dill.Unpickler):
+        def persistent_load(self, pid):
+            return kept[pid[1]]
+
+    buffer = io.BytesIO()
+    Pickler(buffer).dump([o.__dict__ for o in objects])
+    buffer.seek(0)
+    states = Unpickler(buffer).load()
+    for obj, state in zip(objects, states):
+        obj.__dict__.clear()
+        obj.__dict__.update(state)
+    return len(objects)
